@@ -38,6 +38,9 @@ def disc_path(pc, i):
         "file_named_target": "t%d/target.rs" % i,
         "git_lookalike": ".github/f%d.rs" % i,
         "dotdir": ".hidden%d/f.rs" % i,
+        "beside_git_file": "wt%d/m.rs" % i,
+        "beside_target_file": "tf%d/m.rs" % i,
+        "beside_target_link": "tl%d/m.rs" % i,
         "under_target": "target/f%d.rs" % i,
         "under_target_deep": "x%d/target/debug/build/y.rs" % i,
         "under_git": ".git/hooks/f%d.rs" % i,
@@ -74,6 +77,19 @@ def disc_project(cases):
         abstract.append({"pc": c["pc"], "parsable": bool(c["parsable"]),
                          "items": [{"k": "fn", "name": "helper_%d" % i, "attr": "none", "pos": "top"},
                                    {"k": "fn", "name": name, "attr": c["attr"], "pos": c["pos"]}]})
+        if c["pc"].startswith("beside_"):
+            # the marker entry (not a directory) and siblings with names sorting / hashing all around it: whichever
+            # order the directory is listed in, some siblings come after the marker
+            base = os.path.dirname("src/" + disc_path(c["pc"], i))
+            marker = {"beside_git_file": (".git", "gitdir: ../../.git/worktrees/x\n"),
+                      "beside_target_file": ("target", "not a directory\n"),
+                      "beside_target_link": ("target", "SYMLINK:../elsewhere")}[c["pc"]]
+            files[base + "/" + marker[0]] = marker[1]
+            sibs = ["a.rs", "zz.rs", ".early.rs", "~late.rs", "sub_a/x.rs", "sub_z/deep/y.rs", "t.rs", "u.rs"]
+            for k, sname in enumerate(sibs):
+                cname = "sib%d_%d" % (i, k)
+                files[base + "/" + sname] = "#[tauri::command]\npub fn %s() {}\n" % cname
+                abstract.append({"pc": c["pc"], "parsable": True, "items": [{"k": "fn", "name": cname, "attr": "tauri_command", "pos": "top"}]})
     return files, abstract
 
 
@@ -129,6 +145,23 @@ def prefix_ty(ty, pre):
     return r
 
 
+DERIVE_SPELLINGS = {
+    "both": "#[derive(Serialize, Deserialize)]\n",
+    "both_with_others": "#[derive(Debug, Clone, Serialize, PartialEq, Deserialize, Default)]\n",
+    "qualified": "#[derive(serde::Serialize, serde::Deserialize)]\n",
+    "abs_qualified": "#[derive(::serde::Serialize, ::serde::Deserialize)]\n",
+    "ser_only": "#[derive(Serialize)]\n",
+    "de_only": "#[derive(Deserialize)]\n",
+    "second_attribute": "#[derive(Debug, Clone)]\n#[allow(dead_code)]\n#[derive(Serialize, Deserialize)]\n",
+    "qualified_among_others": "#[derive(Clone, serde::Deserialize, PartialEq)]\n",
+    "mixed_qualified": "#[derive(Serialize, serde::Deserialize)]\n",
+    "others_only": "#[derive(Debug, Clone, PartialEq)]\n",
+    "no_derive": "",
+    "derive_empty": "#[derive()]\n",
+}
+SERDE_DERIVES = {"both", "both_with_others", "qualified", "abs_qualified", "ser_only", "de_only", "second_attribute",
+                 "qualified_among_others", "mixed_qualified"}
+
 SLOT_PATHS = {1: "src/a_g%d.rs", 2: "src/m/b_g%d.rs", 3: "src/m/n/c_g%d.rs", 4: "src/z_g%d.rs"}
 
 
@@ -152,7 +185,13 @@ def graph_source(i, g):
             lines.append("    pub f%d: %s,\n" % (j, ty))
             fields.append({"ctx": e["ctx"], "to": pre + e["to"]})
         serde = bool(g["serde"][n])
-        derive = "#[derive(Serialize, Deserialize)]\n" if serde else "#[derive(Debug, Clone)]\n"
+        dk = (g.get("derive") or {}).get(n)
+        if dk:
+            derive = DERIVE_SPELLINGS[dk]
+            if (dk in SERDE_DERIVES) != serde:
+                raise ValueError("derive spelling %s contradicts serde=%s" % (dk, serde))
+        else:
+            derive = "#[derive(Serialize, Deserialize)]\n" if serde else "#[derive(Debug, Clone)]\n"
         put(n, "%spub struct %s%s {\n    pub id: u32,\n%s}\n" % (derive, pre, n, "".join(lines)))
         types[pre + n] = {"serde": serde, "fields": fields}
     roots = []
